@@ -176,6 +176,25 @@ def check_stats(ctx, coq_ok):
             elif idx:
                 ctx.broken.append("K_stats: model and implementation differ on schedule #%d of config %s" % (idx[0], (nt, per, nd)))
             ctx.cov["traces_validated_against_impl"] = ctx.cov.get("traces_validated_against_impl", 0) + len(terms)
+    # every counter, not only the matched pairs: one goroutine increments all of them in bursts, one dumps
+    for per, nd in ((1, 1), (2, 1), (2, 2)):
+        rc, out = ctx.vh("vh-api", ["stats-sched-all", str(per), str(nd)], timeout=1200)
+        lines = [json.loads(l) for l in out.split("\n") if l.startswith("{")]
+        if rc != 0 or not lines or "runs" not in lines[-1]:
+            ctx.broken.append("K_stats: scheduler run (all counters) failed (%d %d)" % (per, nd))
+            ctx.log(out[-800:])
+            continue
+        reported = 0
+        for r in lines[:-1]:
+            ctx.count_case(("stats-all", per, nd, tuple(s_["Worker"] for s_ in r["steps"])), True, "stats-schedule-all-counters")
+            if (r.get("err") or not r["obs"].startswith("ok ")) and reported < 2:
+                reported += 1
+                ctx.violation({"kind": "stats-schedule-all", "config": [per, nd], "schedule": [s_["Worker"] + "@" + s_["Site"] for s_ in r["steps"]],
+                               "observed": r.get("err") or r["obs"],
+                               "explanation": "one goroutine calls every Inc* method and UpdateProcessedBytes in bursts, another dumps: for every counter a dump resets, dumps + residue must equal the increments",
+                               "how": "vh-api stats-sched-all %d %d" % (per, nd)})
+        if lines[:-1]:
+            ctx.cov.setdefault("counters_checked", lines[0]["obs"][3:] if lines[0]["obs"].startswith("ok ") else "")
     # free-running stress (support): conservation under real goroutines
     g, per, nd = (8, 40000, 400) if ctx.tier == "quick" else (16, 400000, 4000)
     rc, out = ctx.vh("vh-api", ["stats-stress", str(g), str(per), str(nd)], timeout=600)
